@@ -229,6 +229,34 @@ class Gen:
             res = self.emit(['bin', 'add', ['r', res], ['r', extra]], 's')
         return res
 
+    def edge_block(self):
+        """degenerate shapes: reductions and products over ONE-element arrays / slices and over rank-0 values, 1x1 matrices"""
+        n = 3
+        v = self.emit(['zeros', n], 'bufv')
+        for k in range(n):
+            self.emit(['set', v, k, ['r', self.pick_scalar()]])
+        w = self.emit(['un', 'sin', v], ('v', n))
+        w2 = self.emit(['bin', 'add', ['r', w], ['c', 1.5]], ('v', n))
+        kind = self.rng.choice(['prod-slice1', 'sum-slice1', 'prod-rank0', 'prod-1x1', 'dot-1', 'trace-1x1'])
+        self.tags.add('edge:' + kind)
+        i = self.rng.randrange(n)
+        one = self.emit(['getsl', w2, [[i, i + 1]]], ('v', 1))
+        if kind == 'prod-slice1':
+            r = self.emit(['prod', one], 's')
+        elif kind == 'sum-slice1':
+            r = self.emit(['sum', one], 's')
+        elif kind == 'prod-rank0':
+            sq = self.emit(['bin', 'mul', ['r', w2], ['r', w2]], ('v', n))
+            r = self.emit(['prod', self.emit(['sum', sq], 's')], 's')
+        elif kind == 'prod-1x1':
+            r = self.emit(['prod', self.emit(['reshape', one, [1, 1]], ('m', 1, 1))], 's')
+        elif kind == 'dot-1':
+            r = self.emit(['dot', one, one], 's')
+        else:
+            r = self.emit(['trace', self.emit(['reshape', one, [1, 1]], ('m', 1, 1))], 's')
+        sm = self.emit(['sum', w2], 's')
+        return self.emit(['bin', 'mul', ['r', r], ['r', sm]], 's')        # used nonlinearly, next to another use of the operand
+
     def vector_block(self):
         n = min(self.N, self.rng.randint(2, 3))
         if self.rng.random() < 0.5 and self.N >= n:
@@ -646,7 +674,7 @@ def kernel_programs(rng, ap, reps=2):
             fs.add(ins[0] + ''.join(':%s' % (v,) for v in ins[1:] if isinstance(v, str) or (ins[0] in ('sumaxis', 'symvec', 'prod', 'T') and isinstance(v, int))))
         return fs
 
-    for name, k in [('buffer_block', 8), ('vector_block', 8), ('matrix_block', 14), ('rect_block', 10), ('fact_block', 8), ('bcast_block', 6)]:
+    for name, k in [('buffer_block', 8), ('vector_block', 8), ('matrix_block', 14), ('rect_block', 10), ('fact_block', 8), ('bcast_block', 6), ('edge_block', 6)]:
         # every branch of a block, not whatever a handful of draws happens to pick: keep drawing blocks (cheap, nothing is evaluated
         # here) and keep each one that shows an instruction/parameter combination not seen so far, besides the first k
         want = k * reps // 2 if reps > 1 else k
